@@ -650,8 +650,10 @@ class IteratorQueue(IterableQueue[_ValueT]):
           logging.debug(
               'chainable: %s', f'"{self.name}" dequeue empty, got {len(result)}'
           )
-          # By the time the lock is re-acquired, the queue may have elements.
-          if not self._queue.empty():
+          # By the time the lock is re-acquired, the queue may have elements or
+          # the last enqueuer may have finished (its notification is lost while
+          # the lock is released above, so it has to be re-checked here).
+          if not self._queue.empty() or self.enqueue_done:
             continue
           if self._dequeue_lock.wait(timeout=self.timeout):
             continue
